@@ -130,6 +130,16 @@ def rust_ident(n):
 RESP_TY = {"QResp": "QResp", "QRespB": "QRespB", "Tup1": "(QResp,)", "Tup2": "(QResp, u64)", "VecTup1": "Vec<(u64,)>", "ArrB": "[QRespB; 2]"}
 
 
+def serde_names(m, indent):
+    """`#[sv::attr(serde(..))]` lines for a handler with a forwarded new name / further names (written below its sv::msg)."""
+    out = ""
+    if m.get("renamed"):
+        out += "\n%s#[sv::attr(serde(rename = \"%s\"))]" % (indent, m["wire"])
+    for a in m.get("aliases", []):
+        out += "\n%s#[sv::attr(serde(alias = \"%s\"))]" % (indent, a)
+    return out
+
+
 def handler_src(prog, part, m, in_trait):
     """Signature (trait) or echo implementation of one handler."""
     ctx_ty, ctx_fn = CTX[m.get("ctxkind") or m["kind"]]      # (the context type may be written as that of a sibling kind)
@@ -143,6 +153,7 @@ def handler_src(prog, part, m, in_trait):
     explicit = m["kind"] == "query" and m.get("explicit")
     aliased = explicit and m.get("sig", "alias") == "alias"
     attr = "#[sv::msg(%s%s)]" % (m["kind"], (", resp=%s" % m["resp"]) if explicit else "")
+    attr += serde_names(m, "        ")
     if in_trait:
         if aliased:        # an aliased result type: the response type can only come from `resp=`
             return "        %s\n        fn %s(&self, ctx: %s%s) -> QResultB<Self::Error>;\n" % (attr, m["name"], ctx_ty, params)
@@ -556,7 +567,8 @@ def program_src(prog):
     o.append("    impl%s Ctr%s%s {\n        pub const fn new() -> Self {\n            %s\n        }\n" % (
         gen_hdr, gen_hdr, gen_where, "Ctr { tag: 0, _p: std::marker::PhantomData }" if generic else "Ctr { tag: 0 }"))
     for m in own["methods"]:
-        o.append("        #[sv::msg(%s%s)]\n" % (m["kind"], (", resp=%s" % m["resp"]) if (m["kind"] == "query" and m.get("explicit")) else ""))
+        o.append("        #[sv::msg(%s%s)]%s\n" % (m["kind"], (", resp=%s" % m["resp"]) if (m["kind"] == "query" and m.get("explicit")) else "",
+                                                     serde_names(m, "        ")))
         o.append("    " + handler_src(prog, own, m, False).replace("\n    ", "\n        ").rstrip(" "))
     o.append("    }\n\n")
 
@@ -621,7 +633,7 @@ def program_src(prog):
     if with_mt:
         o.append(mt_src(prog))
     parts = ", ".join('"%s"' % p["id"] for p in prog["parts"])
-    o.append("    pub fn vt() -> ProgVt {\n        ProgVt { id: \"%s\", lists, decode_wrapper, decode_part, decode_struct, call_ep, call_mt, encode_events, schema_events: Some(schema_events), parts: &[%s], remote_events: %s, mt_histories: %s, builder_events: %s }\n    }\n" % (pid, parts, "None" if prog.get("overrides") else "Some(remote_events)", "Some(mt_histories)" if with_mt else "None", "Some(builder_events)" if prog.get("builder") else "None"))
+    o.append("    pub fn vt() -> ProgVt {\n        ProgVt { id: \"%s\", lists, decode_wrapper, decode_part, decode_struct, call_ep, call_mt, encode_events, schema_events: Some(schema_events), parts: &[%s], remote_events: %s, mt_histories: %s, builder_events: %s }\n    }\n" % (pid, parts, "None" if (prog.get("overrides") or prog.get("family") in ("alias", "aliasshare")) else "Some(remote_events)", "Some(mt_histories)" if with_mt else "None", "Some(builder_events)" if prog.get("builder") else "None"))
     o.append("}\n")
     return "".join(o)
 
